@@ -9,10 +9,10 @@ TRUSTED = [
     "harness/render.py (gamma: rendering of abstract values, token <-> digest binding)",
 ]
 
-Q_STORY = dict(MaxStories=3, MaxSrc=2, MaxCarried=2)
-T_STORY = dict(MaxStories=4, MaxSrc=3, MaxCarried=3)
-Q_ITEM = dict(MaxItems=3, MaxSrc=2, MaxCarried=2)
-T_ITEM = dict(MaxItems=4, MaxSrc=3, MaxCarried=2)
+Q_STORY = dict(MaxStories=4, MaxSrc=3, MaxCarried=3)
+T_STORY = dict(MaxStories=5, MaxSrc=4, MaxCarried=3)
+Q_ITEM = dict(MaxItems=4, MaxSrc=3, MaxCarried=2)
+T_ITEM = dict(MaxItems=5, MaxSrc=4, MaxCarried=3)
 
 
 def fam(tier, story=None, item=None, other=None):
